@@ -711,6 +711,194 @@ def upcfg_classify(line, res):
     return "%s/%s/%s" % (f["st"].lower(), f["mode"], f["peer"])
 
 
+
+# ---------------- kind uprouter: SEVERAL upstream entries in one router — every entry keeps its own verdict
+UPR_NAMES = ["lan.test", "dns.test", "upc17.test", "resolver.test"]
+UPR_BAD = {0: ["selfsigned", "unknownca", "valid", "wrongname", "expired"],       # refused by a strict entry without ca
+           1: ["selfsigned", "unknownca", "sysroot", "wrongname", "expired"]}     # ... with the configured ca
+UPR_GOOD = {0: "sysroot", 1: "valid"}
+
+
+def upr_entry(i, st, srv, tls, http, mode, ca, ck, ins, peer, srvreq, v6=False, name=None, urlport=True, tag=None):
+    uh = ("dom", name) if (name is not None and mode == "da") else None
+    ln = upc_line("x", st, srv, tls, http, mode, ca, ck, ins, peer, srvreq, v6=v6, urlport=urlport, uhost=uh,
+                  uport=(PORT if urlport else None) if uh else None)
+    f = gens.fields(ln)
+    f["tag"] = tag if tag is not None else "u%d" % i
+    return f
+
+
+def upr_line(cid, entries, split=0):
+    keys = ["tag", "url", "da", "srv", "listen", "san", "ca", "ck", "ins", "peer", "srvreq", "st", "tls", "mode"]
+    parts = ["%s n=%d split=%d" % (cid, len(entries), split)]
+    for i, f in enumerate(entries):
+        parts += ["%s%d=%s" % (k, i, f[k]) for k in keys]
+    return " ".join(parts)
+
+
+def uprouter_gen(rng, tier):
+    out = []
+    n = [0]
+
+    def add(entries, split=0):
+        out.append(upr_line("m%d" % n[0], entries, split))
+        n[0] += 1
+
+    sp = upc_spellings(rng, tier)
+    tls_sp = [x for x in sp if x[2]]
+    base_tls = [x for x in UPC_BASE if x[2]]
+    # catalogue: two entries that name the SAME ca / cert / key files (or none) and differ in insecure_skip_verify only,
+    # both orders, both facing a server a strict entry must refuse; a third, strict entry facing a good server
+    for (text, srv, tls, http) in base_tls:
+        for (ca, ck) in ((0, 0), (1, 0), (1, 1)):
+            for order in (0, 1):
+                st2, srv2, _, http2 = rng.choice(tls_sp) if rng.random() < 0.5 else (text, srv, tls, http)
+                peers = rng.sample(UPR_BAD[ca], 2)
+                a = dict(st=text, srv=srv, http=http, ins=1, peer=peers[0])
+                b = dict(st=st2, srv=srv2, http=http2, ins=0, peer=peers[1])
+                es = [a, b] if order == 0 else [b, a]
+                if rng.random() < 0.5:
+                    st3, srv3, _, http3 = rng.choice(tls_sp)
+                    es.insert(rng.randrange(3), dict(st=st3, srv=srv3, http=http3, ins=0, peer=UPR_GOOD[ca]))
+                names = rng.sample(UPR_NAMES, len(es))
+                add([upr_entry(i, e["st"], e["srv"], True, e["http"], rng.choice(("da", "da", "url")), ca, ck, e["ins"],
+                               e["peer"], 0, v6=rng.random() < 0.2, name=names[i], urlport=rng.random() < 0.5)
+                     for i, e in enumerate(es)],
+                    split=0 if rng.random() < 0.8 else rng.randrange(1, len(es)))
+    # random routers: 2..4 entries, TLS fields mostly shared, everything else free; a quarter split over two routers
+    for _ in range(budget(tier, 70, 600)):
+        k = rng.randint(2, 4)
+        bca, bck = rng.randrange(2), rng.randrange(2)
+        es = []
+        names = [rng.choice(UPR_NAMES) for _ in range(k)]
+        for i in range(k):
+            st, srv, tls, http = rng.choice(sp) if rng.random() < 0.2 else rng.choice(tls_sp)
+            ca, ck = (bca, bck) if rng.random() < 0.75 else (rng.randrange(2), rng.randrange(2))
+            srvreq = 1 if rng.random() < 0.25 else 0
+            es.append(upr_entry(i, st, srv, tls, http, rng.choice(("da", "url")), ca, ck, rng.randrange(2),
+                                rng.choice(CERTS), srvreq, v6=rng.random() < 0.2, name=names[i],
+                                urlport=rng.random() < 0.5))
+        if rng.random() < 0.04:
+            es[-1]["tag"] = es[0]["tag"]            # duplicate tag: refused (when both are in the same router)
+        add(es, split=rng.randrange(1, k) if rng.random() < 0.25 else 0)
+    return out
+
+
+def upr_groups(f):
+    k, split = int(f["n"]), int(f.get("split", "0"))
+    return [list(range(0, split)), list(range(split, k))] if 0 < split < k else [list(range(k))]
+
+
+def uprouter_compare(ir, mr):
+    def canon(res):
+        r = gens.fields(res)
+        for k in list(r):
+            if k.startswith("d") and r[k] != "-":
+                r[k] = canon_hostport(r[k])
+        return sorted(r.items())
+    return canon(ir) == canon(mr)
+
+
+def uprouter_oracle(line, res):
+    f = gens.fields(line)
+    r = gens.fields(res)
+    k = int(f["n"])
+    groups = upr_groups(f)
+    dup = any(len(set(f["tag%d" % i] for i in g)) < len(g) for g in groups)
+    if r.get("start") != "ok":
+        return None if dup else "a router with %d valid upstream entries (distinct tags) did not start" % k
+    if dup:
+        return "a router with two upstreams of the same tag started"
+
+    def desc(i):
+        return "%s://(ca=%s cert/key=%s insecure_skip_verify=%s)" % (f["st%d" % i], f["ca%d" % i], f["ck%d" % i], f["ins%d" % i])
+    for g in groups:
+        for i in g:
+            keys = ["srv", "ca", "ck", "ins", "peer", "srvreq", "st", "tls", "mode"]
+            pl = "x " + " ".join("%s=%s" % (kk, f["%s%d" % (kk, i)]) for kk in keys)
+            pr = "start=ok dial=%s x=%s" % (r.get("d%d" % i, "-"), r.get("x%d" % i, "fail"))
+            why = upcfg_oracle(pl, pr)
+            if why:
+                others = ", ".join("#%d %s" % (j, desc(j)) for j in g if j != i)
+                return ("entry #%d %s of a router with %d upstreams [others: %s]%s: %s — every upstream must behave as "
+                        "its own entry alone" % (i, desc(i), len(g), others,
+                                                 " (a second router is alive in the process)" if len(groups) > 1 else "", why))
+    return None
+
+
+def uprouter_classify(line, res):
+    f = gens.fields(line)
+    k = int(f["n"])
+    mixed = False
+    for i in range(k):
+        for j in range(i + 1, k):
+            if (f["ca%d" % i], f["ck%d" % i]) == (f["ca%d" % j], f["ck%d" % j]) and f["ins%d" % i] != f["ins%d" % j]:
+                mixed = True
+    return "n%d/%s/%s" % (k, "split" if len(upr_groups(f)) > 1 else "one", "sharedfiles-insdiffer" if mixed else "other")
+
+
+
+# ---------------- kind lsrouter: SEVERAL TLS listeners in one router — every listener keeps its own verdict
+def lsrouter_gen(rng, tier):
+    out = []
+    n = [0]
+    peers = CERTS[:6] + ["absent"]
+
+    def add(entries):
+        parts = ["l%d n=%d" % (n[0], len(entries))]
+        for i, (proto, ca, vc, peer) in enumerate(entries):
+            parts.append("proto%d=%s ca%d=%d vc%d=%d peer%d=%s" % (i, proto, i, ca, i, vc, i, peer))
+        out.append(" ".join(parts))
+        n[0] += 1
+
+    # catalogue: same files, verify_client_cert differs, both orders, clients a verifying listener must refuse
+    for pa in ("tls", "https", "quic"):
+        for order in (0, 1):
+            pb = rng.choice(("tls", "https", "quic"))
+            a = (pa, 1, 1, rng.choice(["absent", "selfsigned", "unknownca", "sysroot", "expired"]))
+            b = (pb, 1, 0, rng.choice(["absent", "selfsigned", "unknownca"]))
+            es = [a, b] if order == 0 else [b, a]
+            if rng.random() < 0.5:
+                es.insert(rng.randrange(3), (rng.choice(("tls", "https")), 1, 1, "valid"))
+            add(es)
+    for _ in range(budget(tier, 24, 300)):
+        k = rng.randint(2, 3)
+        es = []
+        for i in range(k):
+            ca = 1 if rng.random() < 0.8 else 0
+            vc = rng.randrange(2) if ca else (1 if rng.random() < 0.1 else 0)   # vc without ca: the router must not start
+            es.append((rng.choice(("tls", "tls", "https", "quic")), ca, vc, rng.choice(peers)))
+        add(es)
+    return out
+
+
+def lsrouter_oracle(line, res):
+    f = gens.fields(line)
+    r = gens.fields(res)
+    k = int(f["n"])
+    bad = any(f["vc%d" % i] == "1" and f["ca%d" % i] == "0" for i in range(k))
+    if r.get("start") != "ok":
+        return None if bad else "a router with %d valid TLS listeners did not start" % k
+    for i in range(k):
+        if f["vc%d" % i] == "1" and r.get("s%d" % i) == "1" and not (f["ca%d" % i] == "1" and f["peer%d" % i] in ("valid", "wrongname")):
+            others = ", ".join("#%d %s(vc=%s ca=%s)" % (j, f["proto%d" % j], f["vc%d" % j], f["ca%d" % j]) for j in range(k) if j != i)
+            return ("listener #%d (%s, verify_client_cert, ca=%s) of a router with %d listeners [others: %s] served a client "
+                    "whose certificate is %s" % (i, f["proto%d" % i], f["ca%d" % i], k, others, f["peer%d" % i]))
+        if f["vc%d" % i] == "0" and r.get("s%d" % i) == "0":
+            others = ", ".join("#%d %s(vc=%s ca=%s)" % (j, f["proto%d" % j], f["vc%d" % j], f["ca%d" % j]) for j in range(k) if j != i)
+            return ("listener #%d (%s) without verify_client_cert refused a client (certificate: %s) in a router with %d "
+                    "listeners [others: %s]: every listener must behave as its own entry alone"
+                    % (i, f["proto%d" % i], f["peer%d" % i], k, others))
+    return None
+
+
+def lsrouter_classify(line, res):
+    f = gens.fields(line)
+    k = int(f["n"])
+    vcs = set(f["vc%d" % i] for i in range(k))
+    return "n%d/%s" % (k, "vcdiffer" if len(vcs) > 1 else "vcsame")
+
+
 PROPS["C17"] = dict(
     kinds=[
         dict(name="addr", gen=addr_gen, oracle=addr_oracle, classify=addr_classify,
@@ -725,6 +913,10 @@ PROPS["C17"] = dict(
              classify=lambda l, r: "ca%s/vc%s" % (gens.fields(l)["ca"], gens.fields(l)["vc"]),
              nontrivial=lambda l, r: True, timeout=300),
         dict(name="upcfg", gen=upcfg_gen, oracle=upcfg_oracle, classify=upcfg_classify, compare=upcfg_compare,
+             nontrivial=lambda l, r: True, timeout=900),
+        dict(name="uprouter", gen=uprouter_gen, oracle=uprouter_oracle, classify=uprouter_classify, compare=uprouter_compare,
+             nontrivial=lambda l, r: True, timeout=900),
+        dict(name="lsrouter", gen=lsrouter_gen, oracle=lsrouter_oracle, classify=lsrouter_classify,
              nontrivial=lambda l, r: True, timeout=900),
     ],
     rule="addr: every helper of internal/upstream/utils.go on grammar strings (IPv4 / domain / IPv6 of 20 catalogue "
@@ -751,8 +943,15 @@ PROPS["C17"] = dict(
          "server) / https over h2 / h3, 6 spellings x 11 URL hosts (IPv4, bracketed IPv6 of 6 shapes, names) x {no port, "
          "the scheme's DEFAULT port written out, another port} reached through dial_addr (v4 / v6 / abstract unix) "
          "or on the privileged default port itself: r.Host of the request the fake DoH server receives (Host header "
-         "resp. :authority) against ep_host octet for octet, plus the protocol major; distinct = distinct case line, "
-         "all non-trivial",
+         "resp. :authority) against ep_host octet for octet, plus the protocol major; uprouter: a real router started "
+         "by run() with 2..4 upstream entries that name the same ca / cert / key files (or none) and differ in "
+         "insecure_skip_verify, ca, cert/key, dial_addr, URL host, scheme spelling (catalogue: 6 TLS schemes x 3 file "
+         "sets x both orders; random routers; a quarter split over TWO routers alive in one process; duplicate tags), "
+         "every registered upstream driven on its own against its own fake server (7 certificate kinds, client "
+         "certificate demanded or not): per-entry accept/refuse and arrival at the target against upr_case "
+         "(= the entry alone, C17_upstreams_independent_case); lsrouter: 2..3 TLS listeners {tls,https,quic} with the "
+         "same cert/key (and ca) files that differ in verify_client_cert / ca, each probed with a client certificate "
+         "kind or none, against lsr_case; distinct = distinct case line, all non-trivial",
     assumptions=["the process's system trust store is the harness' own (SSL_CERT_FILE / SSL_CERT_DIR set by build/implrun "
                  "before crypto/x509 first loads it; verified at start-up, a failure is a harness error, not an alarm)",
                  "every address of 127.0.0.0/8 is local (127.0.0.2, .3, .17, .18 are used as distinct peers)",
